@@ -270,6 +270,14 @@ static int audit(var t_, const char* who) {
   if (m->ksize < size(KT) || m->vsize < size(VT)) {
     vf_violation(L(m->ksize < size(KT) ? "audit-key-slot-too-small" : "audit-value-slot-too-small"), NULL,
       "%s: the tree reserves %zu/%zu bytes per key/value, the types need %zu/%zu", who, m->ksize, m->vsize, size(KT), size(VT));
+#ifndef VF_ASAN
+    /* the next insertion into such a tree writes past its node: without a sanitizer the heap
+    ** (and with it this process and its result file) cannot be trusted after that, so the
+    ** instance ends here with what it has; the ASan build goes on and reports the overflow */
+    vf.exhaustive = 0;
+    vf_note("exploration stopped at the first tree whose slots are smaller than its types (heap corruption would follow)");
+    vf_finish();
+#endif
     return 1;
   }
   if (m->root == NULL) {
